@@ -117,23 +117,28 @@ def class_facts(record, default_access):
             'isAbstract': bool(dd.get('isAbstract'))}
 
 
-def find_class(objs, name):
-    """Return facts for the class template `name` (the declaration with a complete definition)."""
+def find_class(objs, name, want_template=True):
+    """Return facts for the class template `name` (the declaration with a complete definition), or,
+    with want_template=False, for the non-template class of that name."""
     def walk(o):
         if isinstance(o, dict):
             yield o
             for c in o.get('inner', []):
                 yield from walk(c)
+    if want_template:
+        for o in objs:
+            for node in walk(o):
+                if node.get('kind') == 'ClassTemplateDecl' and node.get('name') == name:
+                    for c in node.get('inner', []):
+                        if c.get('kind') == 'CXXRecordDecl' and c.get('completeDefinition'):
+                            return class_facts(c, 'private' if c.get('tagUsed') == 'class' else 'public')
     for o in objs:
+        if o.get('kind') == 'ClassTemplateDecl':
+            continue
         for node in walk(o):
-            if node.get('kind') == 'ClassTemplateDecl' and node.get('name') == name:
-                for c in node.get('inner', []):
-                    if c.get('kind') == 'CXXRecordDecl' and c.get('completeDefinition'):
-                        return class_facts(c, 'private' if c.get('tagUsed') == 'class' else 'public')
             if node.get('kind') == 'CXXRecordDecl' and node.get('name') == name \
                     and node.get('completeDefinition') and 'definitionData' in node \
                     and not node.get('isImplicit'):
-                # non-template class (ConstitutiveModel, Dimensions)
                 f = class_facts(node, 'private' if node.get('tagUsed') == 'class' else 'public')
                 f['nontemplate'] = True
                 return f
@@ -218,7 +223,7 @@ def main():
             return job, free_operators(include_dir, classes)
         objs = parse_concat(run_clang(include_dir, header, filt))
         if kind == 'class':
-            return job, find_class(objs, name.split('::')[-1])
+            return job, find_class(objs, name.split('::')[-1], want_template=not name.startswith('Dimension::'))
         ens = find_enums(objs)
         return job, ens.get(name.split('::')[-1])
 
